@@ -108,11 +108,21 @@ def to_smt2(ob):
 _pool = None
 
 
+def _die_with_parent():
+    """a worker must not outlive the checker (a killed or timed-out check would otherwise leave solver processes behind)"""
+    try:
+        import ctypes
+        import signal
+        ctypes.CDLL("libc.so.6", use_errno=True).prctl(1, signal.SIGKILL)      # PR_SET_PDEATHSIG
+    except Exception:
+        pass
+
+
 def pool():
     global _pool
     if _pool is None:
         n = int(os.environ.get("PYVC_JOBS", "0")) or min(16, os.cpu_count() or 4)
-        _pool = ProcessPoolExecutor(max_workers=n, mp_context=multiprocessing.get_context("spawn"))
+        _pool = ProcessPoolExecutor(max_workers=n, mp_context=multiprocessing.get_context("spawn"), initializer=_die_with_parent)
     return _pool
 
 
